@@ -382,7 +382,8 @@ Record sstate : Type := mkSt {
 Inductive sevent : Type :=
 | ESubmit (caller : N) (qs : list N) (multi : bool) (unconvertible : bool) (x0 : xfr)
 | EReply (m : msg)
-| EFail (e : N).          (* read error, read timeout or write error *)
+| EFail (e : N)           (* read error, read timeout or write error *)
+| ETick.                  (* the (non-zero) idle timeout of an Idle connection expires *)
 
 (* error numbers: 10 StreamIdleTimeout, 11 StreamTooManyOutstandingQueries,
    12 StreamLongMessage; EFail carries its own *)
@@ -464,6 +465,15 @@ Definition s_step (s : sstate) (ev : sevent) : outcome sstate :=
           let '(q', l) := q_drain (st_q s) in
           Ok (mkSt q' (CDown err) (st_sent s)
                    (st_log s ++ map (fun e => (e_caller e, e_multi e, DError err)) l) (st_idle_zero s) false)
+      end
+  | ETick =>
+      (* the loop head: ConnState::Idle(since) with elapsed >= idle_timeout -> IdleTimeout, break;
+         in every other state the idle timer is not running *)
+      match st_conn s with
+      | CDown _ => Ok s
+      | COpen => if st_idle s
+                 then Ok (mkSt (st_q s) (CDown 10) (st_sent s) (st_log s) (st_idle_zero s) (st_idle s))
+                 else Ok s
       end
   end.
 
@@ -840,3 +850,43 @@ Fixpoint lb_run (ups : list (option N * N)) (picks : list nat) : list (option na
 Definition c15_lb_local := lb_local.
 Definition c15_lb_run := lb_run.
 Definition c15_ms_request (T : N) (atts : list catt) (delays : list N) : mres := ms_request T 0 0 0 atts delays.
+
+(* ---- multi_stream: a sequence of requests over one transport, with the peer
+   killing the current connection in between (MK).  A request asks NewConn(None);
+   a connection whose transport has ended answers ConnectionClosed, the first of
+   which makes the request ask again at once, naming the id it was given.
+   Result per request: did it get a reply, and how many connects were made so far. *)
+Inductive mop : Type := MQ | MK.
+Fixpoint msc_run (idle_zero : bool) (s : mstate) (alive : bool) (connects : N) (ops : list mop) : list (bool * N) :=
+  match ops with
+  | [] => []
+  | MK :: rest => msc_run idle_zero s false connects rest
+  | MQ :: rest =>
+      let after := negb idle_zero in      (* idle_timeout zero: the connection closes itself after the reply *)
+      let '(s1, rep) := ms_newconn s None 0 in
+      let connect s' :=
+        match ms_connected s' (Some (connects + 1)) 0 0 with
+        | Ok (s'', MReplyOk _ _) => (true, connects + 1) :: msc_run idle_zero s'' after (connects + 1) rest
+        | _ => (false, connects + 1) :: msc_run idle_zero s' false (connects + 1) rest
+        end in
+      match rep with
+      | MReplyOk id _ =>
+          if alive then (true, connects) :: msc_run idle_zero s1 after connects rest
+          else
+            let '(s2, rep2) := ms_newconn s1 (Some id) 0 in
+            match rep2 with
+            | MConnect => connect s2
+            | _ => (false, connects) :: msc_run idle_zero s2 false connects rest
+            end
+      | MConnect => connect s1
+      | MReplyErr => (false, connects) :: msc_run idle_zero s1 false connects rest
+      end
+  end.
+Definition c15_msc (idle_zero : bool) (ops : list mop) : list (bool * N) :=
+  msc_run idle_zero (mkMs MNone 0) false 0 ops.
+
+(* redundant with n upstreams that all produce the same result: the outcome does
+   not depend on the (randomised) probing order *)
+Definition c15_red (defer_err : bool) (n : N) (r : ures) : outcome (rstate + rfinal) :=
+  r_run defer_err n r_init (map (fun i => RFin (N.of_nat i) r) (seq 0 (N.to_nat n))).
+Definition c15_red_skip := red_skip.
